@@ -66,7 +66,7 @@ def cmd_import(name, src, prop, needs):
     return 0 if ok else 1
 
 
-SCRATCH = "/tmp/verif_evalrepo"
+SCRATCH = "/tmp/verif_evalrepo_%d" % os.getpid()
 
 
 def cmd_run(name, props, patch=None, record=True):
